@@ -5,15 +5,18 @@ Theorems about the guarded-step model `P3R.Shape` (`Model/Shape.lean`) of the re
 verifier's circuit builders, for EVERY shape vector and EVERY environment (no bound on list
 lengths, counts, degrees, word size, field parameters).
 
-This is the variant for the tree with fixes C15-1, C15-2, C15-3 applied (C15-2 touches only the
-batch builder, which is not modelled). Findings F9b, F9c, F9o and the overflow part of F9i are
-repaired: what used to be a hypothesis inside `PanicGuards` is now proved for every shape
-(`fri_pow_mismatch_err`, `fri_height_overflow_err`, `open_input_height_err`,
-`uni_pow_mismatch_err`, `uni_pow_mismatch_outcome`).
+This is the variant for the tree with fixes C15-1, C15-2, C15-3 and the later repairs ca07f07
+(F9a, part), fc0321f (F9d), 069da9d (F9e), c030fca (F9i), 0e5036a (C07-F4) applied. Findings F9b,
+F9c, F9d, F9e, F9i, F9o and the shift / bit-width part of F9a are repaired: what used to be a
+hypothesis inside `PanicGuards` is now proved for every shape (`fri_pow_mismatch_err`,
+`fri_height_overflow_err`, `open_input_height_err`, `uni_pow_mismatch_err`,
+`uni_pow_mismatch_outcome`, `fri_no_panic`, `fri_sibling_mismatch_err`,
+`fri_log_arity_out_of_range_err`, `open_input_bad_cap_err`, `fri_height_above_two_adicity_err`,
+`uni_degree_out_of_range_err`).
 
 FULL STATEMENTS (the property as worded) — both are still FALSE of the patched code (the
-unrepaired findings F9a, F9d–F9i remain); their negations are proved on concrete witnesses in
-`P3R/Witness/C15.lean` and replayed on the real builders:
+unrepaired findings F9a (rest), F9f, F9g, F9h remain); their negations are proved on concrete
+witnesses in `P3R/Witness/C15.lean` and replayed on the real builders:
 
     no_panic           : ∀ e s, verifyUni e s ≠ .panic
     malformed_rejected : ∀ e s, ¬ WellFormed e s → verifyUni e s = .err
@@ -26,25 +29,38 @@ What is proved here:
 * `uni_ok_validated` — if the uni-STARK builder accepts, every component the explicit validation
   covers has its expected value: trace openings have the AIR width, the quotient opening is
   exactly `2^logQd` chunks of `dim` coefficients, no ZK parts, local/next preprocessed widths
-  agree and are present iff the verifier holds a preprocessed commitment, `degree_bits` is in
-  range (this is "validate ok → expected shape" for the STARK layer).
+  agree and are present iff the verifier holds a preprocessed commitment, `degree_bits +
+  log_quotient_degree` is below the word size and at most the field's bit width (this is
+  "validate ok → expected shape" for the STARK layer).
 * `uni_ok_fri_validated` — … and the FRI layer: as many PoW witnesses as commit-phase
-  commitments (≥ 1), every query carries exactly that many openings with the schedule of the
-  first query, every `log_arity` is at least 1, the final polynomial has `2^logFinalPolyLen` coefficients, at least one query,
-  every query opens exactly one batch per commitment round, and every commit cap is a non-empty
-  power of two when MMCS verification is on.
+  commitments, every query carries exactly that many openings with the schedule of the
+  first query, every `log_arity` is at least 1 and below the word size, every opening carries
+  `2^log_arity - 1` sibling values, the final polynomial has `2^logFinalPolyLen` coefficients, at
+  least one query, `log_max_height` is at most the bit width and the two-adicity, every query
+  opens exactly one batch per commitment round. Since 0e5036a a proof without fold phase is
+  accepted (as natively), so "at least one phase" is no longer among the consequences
+  (`Witness.C15.zero_phase_accepted`).
   NOT implied (and false today, see the witnesses): the number of queries and the cap sizes are
   whatever the proof says.
 * `uni_no_panic_partial` — under the decidable hypothesis `PanicGuards e s` (every unchecked
   partial step of the builder goes through on this shape) the builder does not panic;
-  `panicGuards_necessary` spells out the arithmetic facts `PanicGuards` contains; the converse
-  `uni_panic_iff_not_guards_prefix` is `run_panic_iff`.
+  `panicGuards_iff` shows that `PanicGuards` is exactly three arithmetic facts (eleven before the
+  repairs): the AIR's preprocessed width does not exceed the proof's (F9h), `degree_bits +
+  log_quotient_degree ≤ two-adicity` (rest of F9a), and the unchecked sum of the schedule fits a
+  word; `uni_no_panic` is the theorem with these spelled out.
+* `fri_no_panic` — the whole FRI + MMCS part (`verify_circuit`, `verify_fri_circuit`, `open_input`,
+  cap handling) never panics on any shape whose schedule sum fits a word; `openInputChecks_allErr`:
+  `open_input` has no partial step at all.
 * `uni_malformed_rejected_partial` — under `PanicGuards`, a shape that violates any validated
   component is rejected with an error.
 * `fri_pow_mismatch_err`, `uni_pow_mismatch_err`, `uni_pow_mismatch_outcome` — F9b / F9c repaired:
   a commitments / PoW-witnesses count mismatch is an error for every environment and shape.
-* `fri_height_overflow_err` — F9i overflow part repaired: out-of-range FRI parameters whose sum
-  overflows a word are an error (the `two_adic_generator` part of F9i remains a panic).
+* `fri_height_overflow_err`, `fri_height_above_two_adicity_err` — F9i repaired (both parts):
+  out-of-range FRI parameters are an error.
+* `fri_sibling_mismatch_err`, `fri_log_arity_out_of_range_err` — F9d repaired.
+* `open_input_bad_cap_err`, `capChecks_allErr` — F9e repaired.
+* `uni_degree_out_of_range_err`, `uni_prefix_panic_iff` — F9a: the repaired part is an error for
+  every shape; the remaining panic window is exactly `two-adicity < degree_bits + logQd ≤ bit width`.
 * `open_input_height_err` — F9o repaired: a matrix taller than the folding schedule reaches is an
   error.
 * `honest_shapes_ok` — non-vacuity: the honest shapes of the three uni bases used by the
@@ -130,25 +146,23 @@ theorem uni_no_panic_partial (e : Env) (s : UniShape) (h : PanicGuards e s = tru
   have := (List.all_eq_true.mp h) c hc
   simpa [hk] using this
 
-/-- What `PanicGuards` still contains for the STARK and FRI layers: the arithmetic side conditions
-the Rust never checks. After fixes C15-1 / C15-3 the challenge-slice condition
-(`commitCaps.length ≤ powWitnesses`), the `log_max_height` overflow and the matrix-height
-subtraction are no longer among them; what is left of the second is the unchecked
-`log_arities.iter().sum()`. -/
+/-- What `PanicGuards` still contains for the STARK and FRI layers: the side conditions the Rust
+never checks. After fixes C15-1 / C15-3 the challenge-slice condition, the `log_max_height`
+overflow and the matrix-height subtraction are no longer among them; after ca07f07 / fc0321f /
+069da9d / c030fca neither are the shift by `degree_bits`, anything about `log_arity` (shift, product,
+allocation size), the Merkle caps, nor `log_max_height ≤ two-adicity`. Left: the AIR evaluated with
+the proof's preprocessed width (F9h), the domain constructors above the two-adicity (rest of F9a)
+and the unchecked `log_arities.iter().sum()`. `panicGuards_iff` shows that this is all. -/
 theorem panicGuards_necessary (e : Env) (s : UniShape) (h : PanicGuards e s = true) :
-    s.degreeBits < e.wordBits ∧ e.airPrepWidth ≤ s.prepWidth ∧
+    e.airPrepWidth ≤ s.prepWidth ∧
     s.degreeBits + e.logQd ≤ e.twoAdicity ∧
-    sum s.fri.logArities < 2 ^ e.wordBits ∧ logMaxHeight e s.fri ≤ e.twoAdicity ∧
-    (∀ q ∈ s.fri.queries, ∀ la ∈ q.steps,
-      la < e.wordBits ∧ (2 ^ la - 1) * e.dim < 2 ^ e.wordBits ∧ (2 ^ la - 1) * e.dim ≤ e.maxAlloc) := by
+    sum s.fri.logArities < 2 ^ e.wordBits := by
   have hall := List.all_eq_true.mp h
   have key : ∀ b : Bool, partialStep b ∈ uniChecks e s → b = true := by
     intro b hb
     have := hall _ hb
     simpa [partialStep] using this
-  refine ⟨?_, ?_, ?_, ?_, ?_, ?_⟩
-  · have := key _ (by simp [uniChecks, uniPrefix] : partialStep (decide (s.degreeBits < e.wordBits)) ∈ uniChecks e s)
-    simpa using this
+  refine ⟨?_, ?_, ?_⟩
   · have := key _ (by simp [uniChecks, uniPrefix] : partialStep (decide (e.airPrepWidth ≤ s.prepWidth)) ∈ uniChecks e s)
     simpa using this
   · have := key _ (by simp [uniChecks, uniPrefix] :
@@ -157,21 +171,6 @@ theorem panicGuards_necessary (e : Env) (s : UniShape) (h : PanicGuards e s = tr
   · have := key _ (by simp [uniChecks, friVerifyChecks] :
       partialStep (decide (sum s.fri.logArities < 2 ^ e.wordBits)) ∈ uniChecks e s)
     simpa using this
-  · have := key _ (by simp [uniChecks, friVerifyChecks] :
-      partialStep (decide (logMaxHeight e s.fri ≤ e.twoAdicity)) ∈ uniChecks e s)
-    simpa using this
-  · intro q hq la hla
-    have mem : ∀ c ∈ allocStep e la, c ∈ uniChecks e s := by
-      intro c hc
-      simp only [uniChecks, uniPrefix, allocFri, List.mem_append, List.mem_flatMap]
-      exact Or.inl (Or.inl (Or.inl (Or.inl (Or.inl ⟨q, hq, la, hla, hc⟩))))
-    refine ⟨?_, ?_, ?_⟩
-    · have := key _ (mem (partialStep (decide (la < e.wordBits))) (by simp [allocStep]))
-      simpa using this
-    · have := key _ (mem (partialStep (decide ((2 ^ la - 1) * e.dim < 2 ^ e.wordBits))) (by simp [allocStep]))
-      simpa using this
-    · have := key _ (mem (partialStep (decide ((2 ^ la - 1) * e.dim ≤ e.maxAlloc))) (by simp [allocStep]))
-      simpa using this
 
 /-- The STARK-layer components the explicit validation pins down. -/
 structure Validated (e : Env) (s : UniShape) : Prop where
@@ -182,6 +181,8 @@ structure Validated (e : Env) (s : UniShape) : Prop where
   prepAgree : s.prepLocal.getD 0 = s.prepNext.getD 0
   prepIff : e.prepCommit.isSome = true ↔ 0 < s.prepWidth
   powBits : e.queryPowBits ≤ e.valBits
+  /-- fix ca07f07: the quotient domain fits a machine word and the field's bit width -/
+  degree : s.degreeBits + e.logQd < e.wordBits ∧ s.degreeBits + e.logQd ≤ e.valBits
 
 private theorem all_beq_replicate (l : List Nat) (d : Nat) (h : l.all (· == d) = true) :
     l = List.replicate l.length d := by
@@ -214,8 +215,11 @@ theorem uni_ok_validated (e : Env) (s : UniShape) (h : verifyUni e s = .ok) : Va
     must (!(e.prepCommit.isNone && decide (s.prepWidth > 0))) ∈ uniChecks e s)
   have h8 := key _ (by simp [uniChecks, uniPrefix, friChallengeChecks] :
     must (decide (e.queryPowBits ≤ e.valBits)) ∈ uniChecks e s)
+  have h9 := key _ (by simp [uniChecks, uniPrefix] :
+    must (decide (s.degreeBits + e.logQd < e.wordBits) && decide (s.degreeBits + e.logQd ≤ e.valBits))
+      ∈ uniChecks e s)
   simp only [Bool.and_eq_true, beq_iff_eq] at h1 h2 h5
-  refine ⟨h1.1, h1.2, ?_, ?_, ?_, ?_, by simpa using h8⟩
+  refine ⟨h1.1, h1.2, ?_, ?_, ?_, ?_, by simpa using h8, by simpa using h9⟩
   · have := all_beq_replicate _ _ h3
     rw [h2] at this; exact this
   · simp only [Bool.and_eq_true, Option.isNone_iff_eq_none] at h4; exact h4
@@ -235,11 +239,17 @@ structure FriValidated (e : Env) (f : FriShape) : Prop where
   powEq : f.commitCaps.length = f.powWitnesses
   phases : f.logArities.length = f.commitCaps.length
   arityPos : ∀ la ∈ f.logArities, 1 ≤ la
-  somePhase : f.commitCaps ≠ []
   someQuery : f.queries ≠ []
   schedule : ∀ q ∈ f.queries, q.steps = f.logArities
+  /-- fix fc0321f: every opening of every query carries exactly `2^log_arity - 1` sibling values
+  (compared as coefficient counts, i.e. times `dim`), and `log_arity` is a valid shift amount -/
+  siblings : ∀ q ∈ f.queries, ∀ i < f.logArities.length,
+    f.logArities.getD i 0 < e.wordBits ∧
+    q.siblings.getD i 0 * e.dim = (2 ^ f.logArities.getD i 0 - 1) * e.dim
   finalPoly : f.finalPolyLen = 2 ^ e.logFinalPolyLen
   height : logMaxHeight e f ≤ e.valBits
+  /-- fix c030fca -/
+  heightTwoAdic : logMaxHeight e f ≤ e.twoAdicity
 
 theorem uni_ok_fri_validated (e : Env) (s : UniShape) (h : verifyUni e s = .ok) :
     FriValidated e s.fri ∧
@@ -257,27 +267,35 @@ theorem uni_ok_fri_validated (e : Env) (s : UniShape) (h : verifyUni e s = .ok) 
     must (s.fri.logArities.all (· != 0)) ∈ uniChecks e s)
   have g3 := key _ (by simp [uniChecks, friVerifyChecks] :
     must (s.fri.queries.length != 0) ∈ uniChecks e s)
-  have g4 := key _ (by simp [uniChecks, friVerifyChecks] :
-    must (s.fri.commitCaps.length != 0) ∈ uniChecks e s)
   have g5 := key _ (by simp [uniChecks, friVerifyChecks] :
     must (isPow2 s.fri.finalPolyLen && log2 s.fri.finalPolyLen == e.logFinalPolyLen) ∈ uniChecks e s)
   have g6 := key _ (by simp [uniChecks, friVerifyChecks] :
     must (decide (logMaxHeight e s.fri ≤ e.valBits)) ∈ uniChecks e s)
+  have g7 := key _ (by simp [uniChecks, friVerifyChecks] :
+    must (decide (logMaxHeight e s.fri ≤ e.twoAdicity)) ∈ uniChecks e s)
   have g5' : s.fri.finalPolyLen = 2 ^ e.logFinalPolyLen := by
     simp only [isPow2, Bool.and_eq_true, bne_iff_ne, ne_eq, beq_iff_eq] at g5
     rw [← g5.2, g5.1.2]
-  refine ⟨⟨by simpa using g1, by simpa using g2, ?_, ?_, ?_, ?_, g5', by simpa using g6⟩, ?_⟩
+  have qmem : ∀ q ∈ s.fri.queries, ∀ c ∈ queryScheduleChecks e s.fri.logArities q, c ∈ uniChecks e s := by
+    intro q hq c hc
+    simp only [uniChecks, friVerifyChecks, List.mem_append, List.mem_flatMap]
+    exact Or.inr (Or.inl (Or.inl (Or.inr ⟨q, hq, hc⟩)))
+  refine ⟨⟨by simpa using g1, by simpa using g2, ?_, ?_, ?_, ?_, g5', by simpa using g6,
+    by simpa using g7⟩, ?_⟩
   · intro la hla
     have := (List.all_eq_true.mp g2') la hla
     simp only [bne_iff_ne, ne_eq] at this
     omega
-  · intro hn; simp [hn] at g4
   · intro hn; simp [hn] at g3
   · intro q hq
-    have := key (q.steps == s.fri.logArities) (by
-      simp only [uniChecks, friVerifyChecks, List.mem_append, List.mem_map]
-      exact Or.inr (Or.inl (Or.inl (Or.inr ⟨q, hq, rfl⟩))))
+    have := key (q.steps == s.fri.logArities) (qmem q hq _ (by simp [queryScheduleChecks]))
     simpa using this
+  · intro q hq i hi
+    have := key (siblingOk e (s.fri.logArities.getD i 0) (q.siblings.getD i 0)) (qmem q hq _ (by
+      simp only [queryScheduleChecks, List.mem_cons, List.mem_map, List.mem_range]
+      exact Or.inr ⟨i, hi, rfl⟩))
+    simp only [siblingOk, Bool.and_eq_true, decide_eq_true_eq, beq_iff_eq] at this
+    exact ⟨this.1, this.2.2⟩
   · intro q hq
     have := key ((uniRounds e s).length == q.inputProof.length) (by
       simp only [uniChecks, friVerifyChecks, openInputChecks, List.mem_append, List.mem_flatMap]
@@ -382,6 +400,299 @@ theorem uni_pow_mismatch_outcome (e : Env) (s : UniShape)
   · exact Or.inr rfl
   · exact Or.inr rfl
 
+/-! ## Repaired findings F9a (part), F9d, F9e, F9i (commits ca07f07, fc0321f, 069da9d, c030fca):
+proved rejected with an error for every shape; what is left that can panic -/
+
+/-- A list whose partial steps all go through and one of whose steps fails returns an error,
+whatever follows it. -/
+theorem run_err_of_guarded_prefix (a b : List Check)
+    (hk : ∀ c ∈ a, c.kind = .panic → c.holds = true)
+    (hf : ∃ c ∈ a, c.holds = false) : run (a ++ b) = .err := by
+  induction a with
+  | nil => obtain ⟨c, hc, _⟩ := hf; simp at hc
+  | cons c a ih =>
+    simp only [List.cons_append, run]
+    by_cases h : c.holds = true
+    · simp only [h, if_true]
+      apply ih (fun d hd => hk d (List.mem_cons_of_mem _ hd))
+      obtain ⟨d, hd, hdf⟩ := hf
+      rcases List.mem_cons.mp hd with rfl | hd
+      · simp [h] at hdf
+      · exact ⟨d, hd, hdf⟩
+    · have : c.kind = .err := by
+        cases hkk : c.kind with
+        | err => rfl
+        | panic => exact absurd (hk c (List.mem_cons_self ..) hkk) h
+      simp [h, this, FailKind.out]
+
+/-- Every step of the list is an explicit error return. -/
+def AllErr (cs : List Check) : Prop := ∀ c ∈ cs, c.kind = .err
+
+theorem AllErr.append {a b : List Check} (ha : AllErr a) (hb : AllErr b) : AllErr (a ++ b) := by
+  intro c hc
+  rcases List.mem_append.mp hc with h | h
+  · exact ha c h
+  · exact hb c h
+
+theorem AllErr.flatMap {α} (l : List α) (f : α → List Check) (h : ∀ x ∈ l, AllErr (f x)) :
+    AllErr (l.flatMap f) := by
+  intro c hc
+  obtain ⟨x, hx, hcx⟩ := List.mem_flatMap.mp hc
+  exact h x hx c hcx
+
+theorem AllErr.map_must {α} (l : List α) (f : α → Bool) : AllErr (l.map fun x => must (f x)) := by
+  intro c hc
+  obtain ⟨x, _, rfl⟩ := List.mem_map.mp hc
+  rfl
+
+theorem AllErr.run_ne_panic {cs : List Check} (h : AllErr cs) : run cs ≠ .panic :=
+  run_no_panic cs (fun c hc hk => by rw [h c hc] at hk; cases hk)
+
+/-- F9e repaired (069da9d): the cap handling of the MMCS gadgets has no partial step left. -/
+theorem capChecks_allErr (cap bits : Nat) : AllErr (capChecks cap bits) := by
+  intro c hc
+  simp only [capChecks, List.mem_cons, List.not_mem_nil, or_false] at hc
+  rcases hc with rfl | rfl <;> rfl
+
+/-- … so `open_input` (input-batch MMCS openings included) never panics, for every environment,
+FRI shape, set of commitment rounds and query. -/
+theorem openInputChecks_allErr (e : Env) (f : FriShape) (rounds : List Round) (q : QueryShape) :
+    AllErr (openInputChecks e f rounds q) := by
+  unfold openInputChecks
+  refine AllErr.append (AllErr.append (AllErr.append ?_ ?_) ?_) ?_
+  · exact AllErr.flatMap _ _ (fun r _ => AllErr.map_must _ _)
+  · intro c hc; simp only [List.mem_cons, List.not_mem_nil, or_false] at hc; subst hc; rfl
+  · apply AllErr.flatMap
+    rintro ⟨r, b⟩ _
+    refine AllErr.append (AllErr.append ?_ ?_) ?_
+    · by_cases hm : e.mmcs = true
+      · simp only [hm, if_true]
+        refine AllErr.append (AllErr.append (AllErr.append ?_ ?_) ?_) (capChecks_allErr _ _)
+        · intro c hc
+          simp only [List.mem_cons, List.not_mem_nil, or_false] at hc
+          rcases hc with rfl | rfl <;> rfl
+        · intro c hc
+          obtain ⟨x, _, rfl⟩ := List.mem_map.mp hc
+          rfl
+        · intro c hc; simp only [List.mem_cons, List.not_mem_nil, or_false] at hc; subst hc; rfl
+      · simp only [hm]
+        intro c hc
+        simp at hc
+    · intro c hc; simp only [List.mem_cons, List.not_mem_nil, or_false] at hc; subst hc; rfl
+    · intro c hc
+      obtain ⟨x, _, rfl⟩ := List.mem_map.mp hc
+      rfl
+  · intro c hc; simp only [List.mem_cons, List.not_mem_nil, or_false] at hc; subst hc; rfl
+
+theorem commitPhaseChecks_allErr (e : Env) (f : FriShape) : AllErr (commitPhaseChecks e f) := by
+  unfold commitPhaseChecks
+  by_cases hm : e.mmcs = true
+  · simp only [hm, if_true]
+    apply AllErr.flatMap
+    intro i _
+    by_cases hz : (logMaxHeight e f - sum (f.logArities.take (i + 1)) == 0) = true
+    · simp only [hz, if_true]; intro c hc; simp at hc
+    · simp only [hz]; exact capChecks_allErr _ _
+  · simp only [hm]; intro c hc; simp at hc
+
+theorem queryScheduleChecks_allErr (e : Env) (las : List Nat) (q : QueryShape) :
+    AllErr (queryScheduleChecks e las q) := by
+  intro c hc
+  simp only [queryScheduleChecks, List.mem_cons, List.mem_map] at hc
+  rcases hc with rfl | ⟨i, _, rfl⟩ <;> rfl
+
+/-- The FRI + MMCS part of the builders, split at its only remaining partial step (the unchecked
+`log_arities.iter().sum()`): everything else is an explicit error return. -/
+theorem friVerifyChecks_partial_steps (e : Env) (f : FriShape) (rounds : List Round) :
+    ∀ c ∈ friVerifyChecks e f rounds, c.kind = .panic →
+      c = partialStep (decide (sum f.logArities < 2 ^ e.wordBits)) := by
+  intro c hc hk
+  have herr : ∀ d : Check, d.kind = .err → d = c → False := by
+    intro d hd hdc; rw [hdc, hk] at hd; cases hd
+  simp only [friVerifyChecks, List.mem_append, List.mem_cons, List.not_mem_nil, or_false,
+    List.mem_flatMap] at hc
+  rcases hc with ((h | h) | h) | h
+  · rcases h with rfl | rfl | rfl | rfl | rfl | rfl | rfl | rfl | rfl
+    all_goals first | rfl | exact absurd hk (by simp [must])
+  · obtain ⟨q, _, hq⟩ := h
+    exact absurd hk (by rw [queryScheduleChecks_allErr e _ q c hq]; simp)
+  · subst h; exact absurd hk (by simp [must])
+  · obtain ⟨q, _, hq⟩ := h
+    rcases hq with hq | hq
+    · exact absurd hk (by rw [openInputChecks_allErr e f rounds q c hq]; simp)
+    · exact absurd hk (by rw [commitPhaseChecks_allErr e f c hq]; simp)
+
+/-- F9d, F9e, F9i repaired: once the schedule's sum fits a machine word (≥ 2^56 openings of the
+largest `u8` arity would be needed to violate that), the whole FRI + MMCS part of the builders —
+`verify_circuit`, `verify_fri_circuit`, `open_input`, the MMCS gadgets' cap handling — never panics:
+for every environment, every FRI shape (any `log_arity`, any sibling counts, any caps, any FRI
+parameters) and every set of commitment rounds. Before the repairs this needed five more guard
+hypotheses (`log_arity` shift / product / allocation, non-empty power-of-two caps,
+`log_max_height ≤ two-adicity`). -/
+theorem fri_no_panic (e : Env) (f : FriShape) (rounds : List Round)
+    (h : sum f.logArities < 2 ^ e.wordBits) : run (friVerifyChecks e f rounds) ≠ .panic := by
+  apply run_no_panic
+  intro c hc hk
+  rw [friVerifyChecks_partial_steps e f rounds c hc hk]
+  simpa [partialStep] using h
+
+/-- Corollary: under that hypothesis any failing step of the FRI part is an error. -/
+theorem fri_err_of_failing_step (e : Env) (f : FriShape) (rounds : List Round)
+    (h : sum f.logArities < 2 ^ e.wordBits)
+    (hf : ∃ c ∈ friVerifyChecks e f rounds, c.holds = false) :
+    run (friVerifyChecks e f rounds) = .err := by
+  have := run_err_of_guarded_prefix (friVerifyChecks e f rounds) [] (by
+    intro c hc hk
+    rw [friVerifyChecks_partial_steps e f rounds c hc hk]
+    simpa [partialStep] using h) hf
+  simpa using this
+
+/-- F9i (`two_adic_generator` part) repaired (c030fca): FRI parameters / a folding schedule whose
+`log_max_height` exceeds the field's two-adicity are rejected with an error (before: the assertion
+inside `two_adic_generator`). -/
+theorem fri_height_above_two_adicity_err (e : Env) (f : FriShape) (rounds : List Round)
+    (h2 : sum f.logArities < 2 ^ e.wordBits) (h : e.twoAdicity < logMaxHeight e f) :
+    run (friVerifyChecks e f rounds) = .err := by
+  apply fri_err_of_failing_step e f rounds h2
+  refine ⟨must (decide (logMaxHeight e f ≤ e.twoAdicity)), by simp [friVerifyChecks], ?_⟩
+  simp only [must, decide_eq_false_iff_not]; omega
+
+/-- F9d repaired (fc0321f): a commit-phase opening whose sibling count is not `2^log_arity - 1`, or
+whose `log_arity` is not a valid shift amount, or whose coefficient count would overflow, is
+rejected with an error (before: `1 << log_arity` overflowed, or `2^log_arity` targets were
+allocated and the process died). -/
+theorem fri_sibling_mismatch_err (e : Env) (f : FriShape) (rounds : List Round)
+    (h2 : sum f.logArities < 2 ^ e.wordBits)
+    (h : ∃ q ∈ f.queries, ∃ i < f.logArities.length,
+      siblingOk e (f.logArities.getD i 0) (q.siblings.getD i 0) = false) :
+    run (friVerifyChecks e f rounds) = .err := by
+  apply fri_err_of_failing_step e f rounds h2
+  obtain ⟨q, hq, i, hi, hs⟩ := h
+  refine ⟨must (siblingOk e (f.logArities.getD i 0) (q.siblings.getD i 0)), ?_, hs⟩
+  simp only [friVerifyChecks, List.mem_append, List.mem_flatMap]
+  refine Or.inl (Or.inl (Or.inr ⟨q, hq, ?_⟩))
+  simp only [queryScheduleChecks, List.mem_cons, List.mem_map, List.mem_range]
+  exact Or.inr ⟨i, hi, rfl⟩
+
+/-- … in particular every `log_arity ≥ usize::BITS` (the old shift overflow, corpus f9d_log_arity_255)
+in a proof with at least one query. -/
+theorem fri_log_arity_out_of_range_err (e : Env) (f : FriShape) (rounds : List Round)
+    (h2 : sum f.logArities < 2 ^ e.wordBits) (hq : f.queries ≠ [])
+    (h : ∃ i < f.logArities.length, e.wordBits ≤ f.logArities.getD i 0) :
+    run (friVerifyChecks e f rounds) = .err := by
+  obtain ⟨i, hi, hla⟩ := h
+  cases hqs : f.queries with
+  | nil => exact absurd hqs hq
+  | cons q qs =>
+    apply fri_sibling_mismatch_err e f rounds h2
+    refine ⟨q, by rw [hqs]; exact List.mem_cons_self .., i, hi, ?_⟩
+    have : decide (f.logArities.getD i 0 < e.wordBits) = false := by
+      simp only [decide_eq_false_iff_not]; omega
+    simp only [siblingOk, this, Bool.false_and]
+
+/-- F9e repaired (069da9d): a commitment round whose cap is empty or not a power of two makes
+`open_input` return an error when MMCS verification is on (before: `assert!` / `log2_strict_usize`
+panics). Unconditional: `open_input` has no partial step. -/
+theorem open_input_bad_cap_err (e : Env) (f : FriShape) (rounds : List Round) (q : QueryShape)
+    (hm : e.mmcs = true)
+    (h : ∃ p ∈ rounds.zip q.inputProof, isPow2 p.1.cap = false) :
+    run (openInputChecks e f rounds q) = .err := by
+  have hrun := run_err_of_must_prefix (openInputChecks e f rounds q) []
+    (openInputChecks_allErr e f rounds q) ?_
+  · simpa using hrun
+  obtain ⟨⟨r, b⟩, hp, hc⟩ := h
+  refine ⟨must (isPow2 r.cap), ?_, hc⟩
+  simp only [openInputChecks, List.mem_append, List.mem_flatMap]
+  refine Or.inl (Or.inr ⟨(r, b), hp, ?_⟩)
+  simp [hm, capChecks]
+
+/-- F9a repaired part (ca07f07): a `degree_bits` whose quotient domain would not fit a machine word
+or exceeds the field's bit width is rejected with an error once the AIR evaluation that precedes
+the test goes through (before: `1 << degree_bits` overflowed for `degree_bits ≥ 64`, and the domain
+constructors panicked for everything above the two-adicity). -/
+theorem uni_degree_out_of_range_err (e : Env) (s : UniShape)
+    (hair : e.airPrepWidth ≤ s.prepWidth)
+    (h : ¬ (s.degreeBits + e.logQd < e.wordBits ∧ s.degreeBits + e.logQd ≤ e.valBits)) :
+    verifyUni e s = .err := by
+  have hb : (decide (s.degreeBits + e.logQd < e.wordBits) && decide (s.degreeBits + e.logQd ≤ e.valBits))
+      = false := by
+    cases hx : (decide (s.degreeBits + e.logQd < e.wordBits) && decide (s.degreeBits + e.logQd ≤ e.valBits))
+    · rfl
+    · simp only [Bool.and_eq_true, decide_eq_true_eq] at hx; exact absurd hx h
+  simp [verifyUni, uniChecks, uniPrefix, run, partialStep, must, hair, hb, FailKind.out]
+
+/-- What is left of F9a, exactly: with the AIR evaluation going through, the steps before the PCS
+panic iff `degree_bits + log_quotient_degree` lies above the two-adicity but within the word size
+and the field's bit width (BabyBear: 28..=31 for one quotient chunk). -/
+theorem uni_prefix_panic_iff (e : Env) (s : UniShape) (hair : e.airPrepWidth ≤ s.prepWidth) :
+    run (uniPrefix e s) = .panic ↔
+      e.twoAdicity < s.degreeBits + e.logQd ∧ s.degreeBits + e.logQd < e.wordBits ∧
+      s.degreeBits + e.logQd ≤ e.valBits := by
+  have hne : ∀ cs : List Check, AllErr cs → run cs ≠ .panic := fun cs h => h.run_ne_panic
+  have hrest : AllErr (friChallengeChecks e s.fri ++ [must (s.random.isNone && s.randomCap.isNone)]
+      ++ validateUniShape e s) := by
+    intro c hc
+    simp only [friChallengeChecks, validateUniShape, List.mem_append, List.mem_cons,
+      List.not_mem_nil, or_false] at hc
+    rcases hc with ((rfl | rfl) | rfl) | rfl | rfl | rfl | rfl | rfl | rfl | rfl <;> rfl
+  have hu : uniPrefix e s =
+      [ partialStep (decide (e.airPrepWidth ≤ s.prepWidth)),
+        must (decide (s.degreeBits + e.logQd < e.wordBits) && decide (s.degreeBits + e.logQd ≤ e.valBits)),
+        partialStep (decide (s.degreeBits + e.logQd ≤ e.twoAdicity)) ]
+      ++ (friChallengeChecks e s.fri ++ [must (s.random.isNone && s.randomCap.isNone)]
+          ++ validateUniShape e s) := by
+    simp [uniPrefix]
+  rw [hu]
+  by_cases h1 : s.degreeBits + e.logQd < e.wordBits ∧ s.degreeBits + e.logQd ≤ e.valBits
+  · by_cases h2 : s.degreeBits + e.logQd ≤ e.twoAdicity
+    · have : ¬ e.twoAdicity < s.degreeBits + e.logQd := by omega
+      simp only [List.cons_append, List.nil_append, run, partialStep, must, hair, h1.1, h1.2, h2,
+        decide_true, Bool.and_self, if_true, this, false_and, iff_false]
+      exact hne _ hrest
+    · have : e.twoAdicity < s.degreeBits + e.logQd := by omega
+      simp [run, partialStep, must, hair, h1.1, h1.2, h2, this, FailKind.out]
+  · have hb : (decide (s.degreeBits + e.logQd < e.wordBits) && decide (s.degreeBits + e.logQd ≤ e.valBits))
+        = false := by
+      cases hx : (decide (s.degreeBits + e.logQd < e.wordBits) && decide (s.degreeBits + e.logQd ≤ e.valBits))
+      · rfl
+      · simp only [Bool.and_eq_true, decide_eq_true_eq] at hx; exact absurd hx h1
+    have : ¬ (e.twoAdicity < s.degreeBits + e.logQd ∧ s.degreeBits + e.logQd < e.wordBits ∧
+        s.degreeBits + e.logQd ≤ e.valBits) := fun h => h1 h.2
+    simp [run, partialStep, must, hair, hb, this, FailKind.out]
+
+/-- `PanicGuards` is *exactly* the three side conditions of `panicGuards_necessary`: the builder
+has no other unchecked partial step on any shape (after the repairs; before them the list had
+eleven entries). -/
+theorem panicGuards_iff (e : Env) (s : UniShape) :
+    PanicGuards e s = true ↔
+      e.airPrepWidth ≤ s.prepWidth ∧ s.degreeBits + e.logQd ≤ e.twoAdicity ∧
+      sum s.fri.logArities < 2 ^ e.wordBits := by
+  constructor
+  · exact panicGuards_necessary e s
+  · rintro ⟨h1, h2, h3⟩
+    apply List.all_eq_true.mpr
+    intro c hc
+    cases hk : c.kind with
+    | err => simp
+    | panic =>
+      simp only [uniChecks, List.mem_append] at hc
+      rcases hc with hc | hc
+      · simp only [uniPrefix, friChallengeChecks, validateUniShape, List.mem_append, List.mem_cons,
+          List.not_mem_nil, or_false] at hc
+        rcases hc with (((rfl | rfl | rfl) | (rfl | rfl)) | rfl) | rfl | rfl | rfl | rfl | rfl | rfl | rfl
+        all_goals first
+          | (simp [partialStep, h1, h2]; done)
+          | (exact absurd hk (by simp [must]))
+      · rw [friVerifyChecks_partial_steps e s.fri _ c hc hk]
+        simp [partialStep, h3]
+
+/-- The no-panic theorem with the guard spelled out (stronger than before the repairs: the
+hypotheses on `log_arity`, the caps, `degree_bits < usize::BITS` and `log_max_height` are gone). -/
+theorem uni_no_panic (e : Env) (s : UniShape)
+    (h1 : e.airPrepWidth ≤ s.prepWidth) (h2 : s.degreeBits + e.logQd ≤ e.twoAdicity)
+    (h3 : sum s.fri.logArities < 2 ^ e.wordBits) : verifyUni e s ≠ .panic :=
+  uni_no_panic_partial e s ((panicGuards_iff e s).mpr ⟨h1, h2, h3⟩)
+
 /-! ## Non-vacuity: the honest shapes of the correspondence bases -/
 
 def envFib (capLog : Nat) : Env :=
@@ -389,7 +700,7 @@ def envFib (capLog : Nat) : Env :=
     logFinalPolyLen := 0, commitPowBits := 1, queryPowBits := 1, mmcs := true, valBits := 31,
     twoAdicity := 27, wordBits := 64, maxAlloc := 2 ^ 26 + capLog * 0 }
 
-def honestQuery : QueryShape := { inputProof := [[2], [4]], steps := [1, 1, 1] }
+def honestQuery : QueryShape := { inputProof := [[2], [4]], steps := [1, 1, 1], siblings := [1, 1, 1] }
 
 /-- Fibonacci, 8 rows, blow-up 2², final polynomial of length 1, two queries, `cap` roots per cap. -/
 def honestFib (cap : Nat) : UniShape :=
@@ -408,8 +719,8 @@ def honestMul : UniShape :=
     prepLocal := some 4, prepNext := some 4, quotientChunks := [4, 4], random := none,
     degreeBits := 3,
     fri := { commitCaps := [1, 1, 1], powWitnesses := 3,
-             queries := [{ inputProof := [[2], [4, 4], [4]], steps := [1, 1, 1] },
-                         { inputProof := [[2], [4, 4], [4]], steps := [1, 1, 1] }],
+             queries := [{ inputProof := [[2], [4, 4], [4]], steps := [1, 1, 1], siblings := [1, 1, 1] },
+                         { inputProof := [[2], [4, 4], [4]], steps := [1, 1, 1], siblings := [1, 1, 1] }],
              finalPolyLen := 1 } }
 
 theorem honest_shapes_ok :
@@ -436,3 +747,19 @@ end P3R.C15
 #print axioms P3R.C15.open_input_height_err
 #print axioms P3R.C15.uni_pow_mismatch_err
 #print axioms P3R.C15.uni_pow_mismatch_outcome
+#print axioms P3R.C15.run_err_of_guarded_prefix
+#print axioms P3R.C15.capChecks_allErr
+#print axioms P3R.C15.openInputChecks_allErr
+#print axioms P3R.C15.commitPhaseChecks_allErr
+#print axioms P3R.C15.queryScheduleChecks_allErr
+#print axioms P3R.C15.friVerifyChecks_partial_steps
+#print axioms P3R.C15.fri_no_panic
+#print axioms P3R.C15.fri_err_of_failing_step
+#print axioms P3R.C15.fri_height_above_two_adicity_err
+#print axioms P3R.C15.fri_sibling_mismatch_err
+#print axioms P3R.C15.fri_log_arity_out_of_range_err
+#print axioms P3R.C15.open_input_bad_cap_err
+#print axioms P3R.C15.uni_degree_out_of_range_err
+#print axioms P3R.C15.uni_prefix_panic_iff
+#print axioms P3R.C15.panicGuards_iff
+#print axioms P3R.C15.uni_no_panic
